@@ -14,7 +14,12 @@ OBLIGATIONS = ["disc_comp_inv_partial", "disc_comp_converges_partial", "guard_ch
                "disc_replica_inv", "disc_replica_converges", "replica_guard_check_sound",
                "disc_comp2_inv_partial", "disc_comp2_converges_partial",
                "callbacks_trace_computation_added_partial",
-               "disc_comp3_inv", "disc_comp3_converges", "dir_tables_agree"]
+               "disc_comp3_inv", "disc_comp3_converges", "dir_tables_agree",
+               "callbacks_wf_reachable", "callbacks_trace_agent_added", "callbacks_trace_agent_removed",
+               "callbacks_trace_computation_removed", "callbacks_trace_replica_added",
+               "callbacks_trace_replica_removed", "callbacks_order_publish_computation",
+               "callbacks_order_unpublish_agent",
+               "disc_removal_inv_partial", "disc_removal_converges_partial", "removal_guard_check_sound"]
 N_QUICK, N_THOROUGH = 400, 6000
 PARALLEL = 8
 SHARD = 100
@@ -40,9 +45,14 @@ MODELLED = ("Directory, DirectoryComputation, Discovery, DiscoveryComputation ar
             "re-proved including unregister_computation(c, agent) (stale un-publication ignored by the directory) "
             "and register_computation without address (only unregister_agent excluded); callbacks along a trace: "
             "any step that makes an entry become g fires exactly one computation_added per registration, in "
-            "order, and discards the one-shot ones. Still only checked by the correspondence run + oracle: "
-            "agreement after removal (refuted in general), callback order across kinds, exactness for the other "
-            "callback kinds.")
+            "order, and discards the one-shot ones. Deepening 2 (P_Discovery3C/T/N.v): computation sub-protocol for "
+            "EVERY history (unregister_agent included: replay with filters, Directory table contained in the "
+            "orchestrator's Discovery table); exact callback lists for all six kinds on every step of every reachable "
+            "configuration, whole-handler event order for publish_computation (agent_added before "
+            "computation_added) and unpublish_agent (computation_removed cascade before agent_removed), the one-shot "
+            "quirk of computation_removed / replica_removed; agreement AFTER removal for non-technical computations "
+            "under two single-step guards (exact replay of pending notifications). Still only checked by the "
+            "correspondence run + oracle: agreement after removal of technical computations and of agents/replicas.")
 META = dict(
     level_text=("Proof (Coq) over an executable model of discovery.py plugged into the generic asynchronous network "
                 "(Net.v): for every history of Discovery operations (any except unregister_agent, "
@@ -55,13 +65,17 @@ META = dict(
                 "every history under per-step guards negating the recorded findings; the computation proof now "
                 "covers unregister_computation naming an agent and register_computation without address; along "
                 "every trace a step that makes an entry become g fires exactly one computation_added callback "
-                "per registration and discards the one-shot ones. The unguarded statement, agreement after removal and replica agreement are refuted by "
+                "per registration and discards the one-shot ones. Second deepening: the computation theorem holds for EVERY history "
+                "(unregister_agent included); exact callback lists (one invocation per registration, in order, table "
+                "afterwards) are proved for all six callback kinds on every step from every reachable configuration, with the "
+                "order of kinds inside the publish_computation and unpublish_agent handlers; agreement after removal is proved "
+                "for non-technical computations under two single-step guards. The unguarded statement, agreement after removal and replica agreement are refuted by "
                 "machine-checked witnesses (recorded findings). The model is tied to the code by replaying the "
                 "same histories and schedules on the real Directory/Discovery objects (thread-free) and comparing "
                 "every callback, exception, final table, subscription set and in-flight message."),
-    level_note=("Partial: positive agreement only (agreement after un-registration is refuted); the computation theorem "
-                "still excludes unregister_agent; exact callback lists are proved for computation_added only, the other "
-                "kinds and callback order across kinds rest on the correspondence run + independent oracle. Trusted: Coq "
+    level_note=("Partial: agreement after un-registration is refuted in general and proved only for non-technical "
+                "computations under guards GN1 (shown necessary by the witness) and GN2 (shown sufficient only); agents and "
+                "replicas after removal rest on the correspondence run + independent oracle. Trusted: Coq "
                 "kernel/vm_compute, M_Discovery.v + Net.v as a rendering of the Python code, the thread-free "
                 "driver (real agent threads and queues are C18/C21's subject); set iteration order of "
                 "replica_agents() is canonicalised to sorted order in the driver."),
